@@ -99,6 +99,8 @@ structure TInv (s : Nat) (st : Stream) (cl : Client) (rtstate : DevState) : Prop
   after_err_stop : afterErrStop cl.pc = true → AllDone st
   /-- outside start/abort/stop the runtime's state field is Running whenever a worker exists -/
   quiet_done : quiet cl.pc = true → rtstate ≠ .running → AllDone st
+  /-- `runtime.state` becomes Running only at the end of `acquire_start` -/
+  start_not_running : (pendingFrom cl.pc).isSome = true → rtstate ≠ .running
   /-- devices: a Running camera belongs to a source that has not finished; a Running storage to a sink that has not left -/
   cam_running : st.cam.state = .running → st.srcRunning = true
   sto_running : st.sto.state = .running → st.snkRunning = true ∨ stage cl.pc s = 2 ∨ stage cl.pc s = 3
